@@ -570,6 +570,13 @@ func (r *runner) run1(c *Case, res *Result) {
 	// "every state" of X: the filler states
 	res.FillTotal = len(s.x.ExtraSts)
 
+	c19.ReadRound(func() { r.fillers(s, db2, res) })
+
+	// the chain goes on from what is visible
+	r.goOn(s, db2, res)
+}
+
+func (r *runner) fillers(s *scenario, db2 *c19.DB, res *Result) {
 	for _, st := range s.x.ExtraSts {
 		got, found, err := db2.Center.State(st.Key())
 		if err != nil {
@@ -593,7 +600,9 @@ func (r *runner) run1(c *Case, res *Result) {
 		}
 	}
 
-	// the chain goes on from what is visible
+}
+
+func (r *runner) goOn(s *scenario, db2 *c19.DB, res *Result) {
 	next := res.Last + 1
 
 	nb, err := s.gen.NewBlock(next, 2, []string{"b"}, -1, 0)
